@@ -124,6 +124,47 @@ def copy_checks(root, m):
     return c, fails
 
 
+def container_checks(root, m, d, shape):
+    """ONE copy.deepcopy call over a container that holds a model and something inside it (a sub-model, a token, its field
+    wrapper): every member is copied as if copied alone - equal to its original, a complete tree of its own, sharing no
+    token with the other copies or with the original."""
+    fails = []
+    what = f'{shape}[{type(m).__name__}, {type(d).__name__}]'
+    box = {'tuple': (m, d), 'list': [d, m], 'dict': {'outer': m, 'inner': d}}[shape]
+    try:
+        cb = copy.deepcopy(box)
+    except Exception as e:   # noqa: BLE001
+        return [(f'C11:deepcopy-raises:container:{type(e).__name__}', f'copy.deepcopy({what}) raised {e!r}')]
+    cm, cd = (cb[0], cb[1]) if shape == 'tuple' else (cb[1], cb[0]) if shape == 'list' else (cb['outer'], cb['inner'])
+    for orig, c, nm in ((m, cm, 'outer'), (d, cd, 'inner')):
+        try:
+            if not (c == orig):
+                fails.append(('C11:copy!=original:container', f'{what}: the copy of the {nm} member does not equal its original'))
+        except Exception as e:   # noqa: BLE001
+            fails.append(('C11:copy!=original:container', f'{what}: comparing the {nm} copy raised {e!r}'))
+        if isinstance(c, base.RawTokenModel):
+            if c.token_store is not None:
+                fails.append(('C11:copy-inv:token-copy-in-a-store', f'{what}: the copied token already lives in a store (of another copy)'))
+        elif isinstance(c, base.RawTreeModel):
+            bad = intro.check_inv(c) if not intro.check_inv(orig) else []
+            if bad:
+                fails.append((f'C11:copy-inv:container:{bad[0][0]}', f'{what}: {nm} copy: {bad[0][1]}'))
+    def toks(x):
+        if isinstance(x, base.RawTokenModel):
+            return {id(x)}
+        if isinstance(x, base.RawTreeModel):
+            return {id(t) for t in x.token_store} if x.token_store is not None else set()
+        try:
+            return {id(t) for it in x for t in (it.tokens if hasattr(it, 'tokens') else [it])}
+        except Exception:   # noqa: BLE001
+            return set()
+    if toks(cm) & toks(cd):
+        fails.append(('C11:shared-token:container', f'{what}: the two copies share token objects'))
+    if (toks(cm) | toks(cd)) & {id(t) for t in root.token_store}:
+        fails.append(('C11:shared-token:container', f'{what}: a copy shares token objects with the original document'))
+    return fails
+
+
 # ---- oracle: independence under edits ----------------------------------------------------------------------
 
 class Snap:
@@ -355,6 +396,19 @@ def run(ctx, ndocs=None, lockstep=True):
                     ctx.count(f'edit-{side}:{kind}:{out}')
                 if fail:
                     ctx.oracle_fail(fail[0], fail[1], {**base_replay, 'mode': 'edit-' + side, 'path': list(path), 'ops': done})
+        # several overlapping pieces of the document copied in one call
+        for _ in range(3):
+            path, m0 = r.choice(trees)
+            inner = [(p2, x) for p2, x in nodes if len(p2) > len(path) and tuple(p2[:len(path)]) == tuple(path)]
+            if not inner or isinstance(m0, internal.Repeated):
+                continue
+            p2, d0 = r.choice(inner)
+            shape = r.choice(['tuple', 'list', 'dict'])
+            fails = container_checks(root, m0, d0, shape)
+            ctx.case((type(m0).__name__, 'container-copy', shape, type(d0).__name__ if isinstance(d0, base.RawTokenModel) else 'tree', bool(fails)))
+            ctx.count('container-copy:' + shape)
+            for sig, what in fails[:1]:
+                ctx.oracle_fail(sig, what, {**base_replay, 'mode': 'container', 'path': list(path), 'inner': list(p2), 'shape': shape})
         # deep copies of repeated FIELDS (raw wrappers)
         holders = [(p, m, name) for p, m in trees for name in intro.api_props(type(m))['rep'] if len(getattr(m, name))] \
             if all(not isinstance(m, (models.NumberAddExpr, models.NumberMulExpr, internal.Repeated)) or True for _, m in trees) else []
@@ -401,6 +455,8 @@ def replay(ctx, data):
     if mode == 'copy':
         _, fails = copy_checks(root, m)
         return not fails
+    if mode == 'container':
+        return not container_checks(root, m, by_path(root, rep['inner']), rep['shape'])
     if mode == 'wrapper':
         fail, _ = wrapper_case(ctx.rng, root, m, rep['name'], steps=rep.get('steps'))
         return fail is None
